@@ -71,13 +71,19 @@ _probe = None
 
 
 def probe():
+    """Source-text line probe (one column vs several columns arms): evidence only."""
     global _probe
     if _probe is None:
-        from catii import xfuncs
+        try:
+            from catii import xfuncs
 
-        _probe = monitors.LineProbe([xfuncs.xfunc_count, xfuncs.xfunc_valid_count, xfuncs.xfunc_sum, xfuncs.xfunc_mean],
-                                    classify)
-        _probe.install()
+            _probe = monitors.LineProbe([xfuncs.xfunc_count, xfuncs.xfunc_valid_count, xfuncs.xfunc_sum, xfuncs.xfunc_mean],
+                                        classify)
+            _probe.install()
+        except Exception:
+            from .c01 import _NoProbe
+
+            _probe = _NoProbe()
     return _probe
 
 
